@@ -3,6 +3,7 @@ C07 — a re-exported object is documented once, where exported, and stays reach
 Theorems over `PdModel.Names` / `PdModel.Registry`.
 -/
 import PdModel.Names
+import PdProps.C02
 
 namespace Names
 open Registry
@@ -81,5 +82,670 @@ theorem findObject_registered (e : Env) (full : Path) (i : Nat) (h : findObject 
               simp only [h2] at h
               injection h with h; subst h
               exact ⟨p, h2⟩
+
+
+/-! ## stepping through `expandLoop` -/
+
+theorem canContain_cases {c : Cls} (h : canContainImports c = true) :
+    c = .module ∨ c = .package ∨ c = .cls := by
+  cases c <;> simp [canContainImports] at h ⊢
+
+/-- in a module, package or class a `contents` hit answers with the qualified name of the entry -/
+theorem localName_contents {e : Env} {y c : Nat} {yo : Obj} {p : Name} (f : Nat)
+    (hy : getObj e.st y = some yo) (hc : canContainImports yo.cls = true)
+    (hd : dget yo.contents p = some c) : localName e (f+1) y p = path e.st c := by
+  unfold localName
+  rcases canContain_cases hc with h | h | h <;> simp [hy, h, hd]
+
+/-- … and, failing that, an alias hit answers with the alias target -/
+theorem localName_alias {e : Env} {y : Nat} {yo : Obj} {p : Name} {t : Path} (f : Nat)
+    (hy : getObj e.st y = some yo) (hc : canContainImports yo.cls = true)
+    (hd : dget yo.contents p = none) (ha : dget yo.aliases p = some t) :
+    localName e (f+1) y p = some t := by
+  unfold localName
+  rcases canContain_cases hc with h | h | h <;> simp [hy, h, hd, ha]
+
+/-- how the `expandName` loop goes on after a component resolved to the registered object `nxt`
+(called `fn`): done if nothing is left, otherwise continue inside `nxt` -/
+def afterStep (e : Env) (fn : Path) (nxt : Nat) (rest : List Name) : Option Path :=
+  match rest with
+  | [] => some fn
+  | _ :: _ => expandLoop e nxt false rest
+
+@[simp] theorem afterStep_nil (e : Env) (fn : Path) (nxt : Nat) : afterStep e fn nxt [] = some fn := rfl
+@[simp] theorem afterStep_cons (e : Env) (fn : Path) (nxt : Nat) (a : Name) (l : List Name) :
+    afterStep e fn nxt (a :: l) = expandLoop e nxt false (a :: l) := rfl
+
+/-- one round of the `expandName` loop when the component resolves to a registered object -/
+theorem expandLoop_step {e : Env} {y : Nat} {first : Bool} {p : Name} {rest : List Name} {fn : Path}
+    {nxt : Nat} (hl : localName e (fuelOf e) y p = some fn) (hne : fn ≠ [p])
+    (ho : objFor e fn = some nxt) :
+    expandLoop e y first (p :: rest) = afterStep e fn nxt rest := by
+  rw [expandLoop]
+  simp only [hl, hne, decide_false, Bool.false_and, Bool.false_eq_true, if_false, ho]
+  cases rest <;> rfl
+
+
+end Names
+
+namespace Registry
+
+/-! ## consequences of `Registry.Inv` used below -/
+
+theorem mem_of_path {s : State} (hI : Inv s) {i : Nat} {k : Path} (h : path s i = some k) : (k, i) ∈ s.all := by
+  obtain ⟨k', hk'⟩ := hI.full i (path_sound h).lt
+  have := hI.reg.keys k' i hk'
+  rw [h] at this; injection this with this
+  exact this ▸ hk'
+
+theorem dget_of_path {s : State} (hI : Inv s) {i : Nat} {k : Path} (h : path s i = some k) :
+    dget s.all k = some i := dget_of_mem hI.reg.uniq (mem_of_path hI h)
+
+/-- every non-empty prefix of a registered name is registered, for an ancestor -/
+theorem prefix_registered {s : State} (hI : Inv s) {p q : Path} {v : Nat} (h : (p ++ q, v) ∈ s.all)
+    (hp : p ≠ []) : ∃ z, (p, z) ∈ s.all ∧ Below s.objs z v := by
+  obtain ⟨z, hz, hb⟩ := (hI.reg.hasPath h).walk p q rfl hp
+  obtain ⟨kz, hkz⟩ := hI.reg.reg_up hb ⟨_, h⟩
+  have := (hI.reg.hasPath hkz).func hz
+  subst this
+  exact ⟨z, hkz, hb⟩
+
+theorem below_of_prefix {s : State} (hI : Inv s) {A q : Path} {obj v : Nat} (hA : (A, obj) ∈ s.all)
+    (h : (A ++ q, v) ∈ s.all) : Below s.objs obj v := by
+  obtain ⟨z, hz, hb⟩ := prefix_registered hI h (hI.reg.hasPath hA).ne_nil
+  exact uniq_val hI.reg.uniq hz hA ▸ hb
+
+/-- `find_object`'s search for the root module finds the object called `[r]` -/
+theorem find_root {s : State} (hI : Inv s) {r : Name} {t : Path} {v : Nat} (h : (r :: t, v) ∈ s.all) :
+    ∃ ro, s.roots.find? (fun ro => match getObj s ro with | some o => o.name = r | none => false) = some ro ∧
+      ([r], ro) ∈ s.all := by
+  obtain ⟨z0, hz0, _⟩ := prefix_registered hI (p := [r]) (q := t) h (by simp)
+  have hz0P := hI.reg.hasPath hz0
+  obtain ⟨zo, hzo⟩ : ∃ zo, s.objs[z0]? = some zo := ⟨s.objs[z0]'hz0P.lt, by simp [hz0P.lt]⟩
+  have hzpar : zo.parent = none := by
+    cases hp : zo.parent with
+    | none => rfl
+    | some q =>
+      obtain ⟨pq, hpq, e⟩ := hz0P.child_inv hzo hp
+      have h1 := congrArg List.length e
+      have h2 := hpq.length_pos
+      simp only [List.length_append, List.length_cons, List.length_nil] at h1; omega
+  have hzname : zo.name = r := by
+    have := hz0P.root_inv hzo hzpar
+    simpa using this.symm
+  have hzroot : z0 ∈ s.roots := (hI.tree.listed z0 zo hzo).1 hzpar
+  cases hf : s.roots.find? (fun ro => match getObj s ro with | some o => o.name = r | none => false) with
+  | none =>
+    rw [List.find?_eq_none] at hf
+    have := hf z0 hzroot
+    have hg : getObj s z0 = some zo := hzo
+    simp [hg, hzname] at this
+  | some ro =>
+    refine ⟨ro, rfl, ?_⟩
+    have hmem := List.mem_of_find?_eq_some hf
+    have hpred := List.find?_some hf
+    obtain ⟨roo, hroo, hrpar⟩ := hI.tree.rootsOk ro hmem
+    have hg : getObj s ro = some roo := hroo
+    simp only [hg, decide_eq_true_eq] at hpred
+    have hP : HasPath s.objs ro [r] := hpred ▸ HasPath.root hroo hrpar
+    obtain ⟨k, hk⟩ := hI.full ro hP.lt
+    have := (hI.reg.hasPath hk).func hP
+    exact this ▸ hk
+
+end Registry
+
+namespace Names
+open Registry
+
+/-- **descending along `contents`**: from `y` (named `py`) to a descendant `x` (named `py ++ rest`),
+when every object on the way is a module/package/class and no component is a superseded name,
+the `expandName` loop consumes `rest` and arrives at `x`. -/
+theorem expandLoop_descend (e : Env) (hI : Inv e.st) :
+    ∀ (rest : List Name) (y x : Nat) (py : Path) (first : Bool) (more : List Name), rest ≠ [] →
+      (py, y) ∈ e.st.all → (py ++ rest, x) ∈ e.st.all →
+      (∀ w wo t u, e.st.objs[w]? = some wo → (py ++ t, w) ∈ e.st.all → rest = t ++ u → u ≠ [] →
+        canContainImports wo.cls = true) →
+      (∀ n ∈ rest, isSupersededName n = false) →
+      expandLoop e y first (rest ++ more) = afterStep e (py ++ rest) x more
+  | [], _, _, _, _, _, h, _, _, _, _ => absurd rfl h
+  | n1 :: rest', y, x, py, first, more, _, hy, hx, hcont, hnames => by
+    have hpyne : py ≠ [] := (hI.reg.hasPath hy).ne_nil
+    -- the child of y on the way to x
+    have hx' : ((py ++ [n1]) ++ rest', x) ∈ e.st.all := by simpa using hx
+    obtain ⟨y1, hy1, hb1⟩ := prefix_registered hI hx' (by simp)
+    have hy1P := hI.reg.hasPath hy1
+    obtain ⟨y1o, hy1o⟩ : ∃ o, e.st.objs[y1]? = some o := ⟨e.st.objs[y1]'hy1P.lt, by simp [hy1P.lt]⟩
+    obtain ⟨q, hq⟩ : ∃ q, y1o.parent = some q := by
+      cases hp : y1o.parent with
+      | some q => exact ⟨q, rfl⟩
+      | none =>
+        have h1 := congrArg List.length (hy1P.root_inv hy1o hp)
+        have h2 := List.length_pos_iff.2 hpyne
+        simp only [List.length_append, List.length_cons, List.length_nil] at h1; omega
+    obtain ⟨pq, hpq, e1⟩ := hy1P.child_inv hy1o hq
+    obtain ⟨e2, e3⟩ := List.append_inj' e1 rfl
+    simp only [List.cons.injEq, and_true] at e3
+    subst e2
+    have hqy : q = y := hI.reg.inj hy (hI.full q hpq.lt) hpq
+    subst hqy
+    obtain ⟨yo, hyo, hlist⟩ := (hI.tree.listed y1 y1o hy1o).2 q hq
+    have hsup : isSupersededName y1o.name = false := by rw [← e3]; exact hnames n1 List.mem_cons_self
+    have hd : dget yo.contents n1 = some y1 := by
+      rcases hlist with h | h
+      · rw [e3]; exact h
+      · rw [hsup] at h; cases h
+    have hcy : canContainImports yo.cls = true :=
+      hcont q yo [] (n1 :: rest') hyo (by simpa using hy) rfl (by simp)
+    have hl : localName e (fuelOf e) q n1 = some (py ++ [n1]) := by
+      show localName e (e.st.objs.length + 1) q n1 = _
+      rw [localName_contents _ hyo hcy hd]
+      exact hI.reg.keys _ _ hy1
+    have hne : py ++ [n1] ≠ [n1] := by
+      intro h
+      have h1 := congrArg List.length h
+      have h2 := List.length_pos_iff.2 hpyne
+      simp only [List.length_append, List.length_cons, List.length_nil] at h1; omega
+    have ho : objFor e (py ++ [n1]) = some y1 := dget_of_mem hI.reg.uniq hy1
+    rw [List.cons_append, expandLoop_step hl hne ho]
+    cases rest' with
+    | nil =>
+      have hxy : x = y1 := uniq_val hI.reg.uniq (by simpa using hx) hy1
+      subst hxy
+      simp
+    | cons n2 r =>
+      have ih := expandLoop_descend e hI (n2 :: r) y1 x (py ++ [n1]) false more (by simp) hy1 hx'
+        (fun w wo t u hw hwk hr hu =>
+          hcont w wo (n1 :: t) u hw (by simpa using hwk) (by rw [hr]; rfl) hu)
+        (fun n hn => hnames n (List.mem_cons_of_mem _ hn))
+      simp only [List.cons_append] at ih ⊢
+      rw [afterStep_cons, ih]
+      simp
+
+end Names
+
+/-! ## C07: what `reparent` (a re-export move) leaves behind -/
+
+namespace Registry
+
+theorem moveObjs_get {objs : List Obj} {obj op np : Nat} {newName oldName : Name} {oc : List (Name × Nat)}
+    {newPath : Path} {w : Nat} {wo' : Obj}
+    (h : (moveObjs objs obj op np newName oc oldName newPath)[w]? = some wo') :
+    ∃ wo, objs[w]? = some wo ∧ wo'.cls = wo.cls ∧
+      wo'.contents = (if w = np then dset (if w = op then oc else wo.contents) newName obj
+                        else (if w = op then oc else wo.contents)) ∧
+      wo'.aliases = (if w = op then dset wo.aliases oldName newPath else wo.aliases) := by
+  obtain ⟨F, h1, h2⟩ := modify3_get objs obj op np newName oc oldName newPath w
+  rw [h1] at h
+  cases hw : objs[w]? with
+  | none => rw [hw] at h; cases h
+  | some wo =>
+    rw [hw] at h; simp only [Option.map_some, Option.some.injEq] at h; subst h
+    exact ⟨wo, rfl, (h2 wo).2.2.2.1, (h2 wo).2.2.1, (h2 wo).2.2.2.2⟩
+
+/-- `reparent` onto a free name: the facts of `reparent_spec` with the names identified -/
+theorem reparent_free {s s' : State} {obj newParent : Nat} {newName : Name} {A pnp : Path}
+    (hI : Inv s) (h : reparent s obj newParent newName = .ok s')
+    (hA : path s obj = some A) (hpnp : path s newParent = some pnp)
+    (hfree : dget s.all (pnp ++ [newName]) = none) :
+    Inv s' ∧ ∃ o op opo oc, ReparentFacts s s' obj newParent newName o op opo oc A pnp ∧
+      s'.objs = moveObjs s.objs obj op newParent newName oc o.name (pnp ++ [newName]) ∧
+      (∀ k v, (k, v) ∈ s.all → ¬Below s.objs obj v → (k, v) ∈ s'.all) ∧
+      (∀ k v, (k, v) ∈ s'.all → (((k, v) ∈ s.all ∧ ¬Below s.objs obj v) ∨ Below s.objs obj v)) := by
+  obtain ⟨hI', o, op, opo, oc, A', pnp', F⟩ := reparent_spec hI h
+  have eA : A' = A := by
+    have := hI.reg.keys _ _ F.hA; rw [hA] at this; injection this with this; exact this.symm
+  have eP : pnp' = pnp := by
+    have := hI.reg.keys _ _ F.hpnp; rw [hpnp] at this; injection this with this; exact this.symm
+  subst eA; subst eP
+  refine ⟨hI', o, op, opo, oc, F, ?_⟩
+  rcases F.branch with ⟨_, b2, b3, b4⟩ | ⟨prev, _, hprev, _⟩
+  · exact ⟨b2, b3, b4⟩
+  · rw [dget_of_mem hI.reg.uniq hprev] at hfree; cases hfree
+
+/-- **no longer documented under the defining module**: after a move onto a free name, no
+registered name starts with the old qualified name of the moved object -/
+theorem no_key_under_old_name {s s' : State} {obj newParent : Nat} {newName : Name} {A pnp : Path}
+    (hI : Inv s) (h : reparent s obj newParent newName = .ok s')
+    (hA : path s obj = some A) (hpnp : path s newParent = some pnp)
+    (hfree : dget s.all (pnp ++ [newName]) = none) :
+    ∀ k v t, (k, v) ∈ s'.all → k ≠ A ++ t := by
+  obtain ⟨hI', o, op, opo, oc, F, _, _, hsplit⟩ := reparent_free hI h hA hpnp hfree
+  intro k v t hk hkA
+  subst hkA
+  have hfreeB : ∀ z, (pnp ++ [newName], z) ∉ s.all := dget_none_iff.1 hfree
+  rcases hsplit _ v hk with ⟨a, b⟩ | hb
+  · exact b (below_of_prefix hI F.hA a)
+  · have hvlt : v < s.objs.length := by
+      cases hb with
+      | refl => exact (hI.reg.hasPath F.hA).lt
+      | step hv _ _ => exact (List.getElem?_eq_some_iff.1 hv).1
+    obtain ⟨kv, hkv⟩ := hI.full v hvlt
+    obtain ⟨rw_, _, hv'⟩ := F.moved v kv hkv hb
+    have := hI'.reg.keys _ _ hk
+    rw [hv'] at this; injection this with this
+    rcases List.append_eq_append_iff.1 this with ⟨a', e1, _⟩ | ⟨c', e1, _⟩
+    · -- A = B ++ a' : the destination would be a registered prefix of the old name
+      obtain ⟨z, hz, _⟩ := prefix_registered hI (e1 ▸ F.hA) (by simp)
+      exact hfreeB z hz
+    · -- B = A ++ c'
+      rcases List.eq_nil_or_concat c' with rfl | ⟨c'', l, rfl⟩
+      · simp only [List.append_nil] at e1
+        exact hfreeB obj (e1 ▸ F.hA)
+      · rw [List.concat_eq_append, ← List.append_assoc] at e1
+        obtain ⟨e2, _⟩ := List.append_inj' e1 rfl
+        exact F.hnb (below_of_prefix hI F.hA (e2 ▸ F.hpnp))
+
+/-- **reparent_once** (C07, "documented once, where exported"): after a successful move of `obj`
+onto a free name of `newParent`, every object is registered exactly once; `obj` and everything
+that was below it is registered under `path newParent ++ [newName] ++ (its name relative to obj)`;
+no registered name starts with the old name of `obj`; everything else keeps its key. -/
+theorem reparent_once {s s' : State} {obj newParent : Nat} {newName : Name} {A pnp : Path}
+    (hI : Inv s) (h : reparent s obj newParent newName = .ok s')
+    (hA : path s obj = some A) (hpnp : path s newParent = some pnp)
+    (hfree : dget s.all (pnp ++ [newName]) = none) :
+    (∀ x, x < s'.objs.length → (s'.all.filter (fun e => e.2 = x)).length = 1) ∧
+    path s' newParent = some pnp ∧
+    (∀ x, x < s.objs.length → isBelow s obj x = true →
+      ∃ rest, path s x = some (A ++ rest) ∧ path s' x = some (pnp ++ [newName] ++ rest) ∧
+        dget s'.all (pnp ++ [newName] ++ rest) = some x) ∧
+    (∀ k v t, (k, v) ∈ s'.all → k ≠ A ++ t) ∧
+    (∀ k v, (k, v) ∈ s.all → isBelow s obj v = false → (k, v) ∈ s'.all) := by
+  obtain ⟨hI', o, op, opo, oc, F, _, hkeep, _⟩ := reparent_free hI h hA hpnp hfree
+  refine ⟨?_, ?_, ?_, no_key_under_old_name hI h hA hpnp hfree, ?_⟩
+  · intro x hx
+    have hb := hI'.invB
+    simp only [Registry.invB, Bool.and_eq_true, allRegistered, List.all_eq_true, beq_iff_eq, List.mem_range] at hb
+    exact hb.1.1.2 x hx
+  · exact hI'.reg.keys _ _ (hkeep _ _ F.hpnp F.hnb)
+  · intro x hx hb
+    obtain ⟨kx, hkx⟩ := hI.full x hx
+    have hpx := hI.reg.keys kx x hkx
+    have hbx : Below s.objs obj x := (isBelow_iff hpx).1 hb
+    obtain ⟨rest, e, hx'⟩ := F.moved x kx hkx hbx
+    exact ⟨rest, e ▸ hpx, hx', dget_of_path hI' hx'⟩
+  · intro k v hk hb
+    refine hkeep k v hk (fun hbv => ?_)
+    rw [(isBelow_iff (hI.reg.keys k v hk)).2 hbv] at hb; cases hb
+
+/-- **reparent_leaves_alias**: the old parent (a module, package or class) keeps an alias from the
+old name to the new qualified name, and no longer lists the old name in its `contents` (unless the
+move was onto the very same place). Holds on both branches (free or taken destination). -/
+theorem reparent_leaves_alias {s s' : State} {obj newParent : Nat} {newName : Name} {o : Obj} {op : Nat}
+    {pnp : Path} (hI : Inv s) (h : reparent s obj newParent newName = .ok s')
+    (ho : s.objs[obj]? = some o) (hop : o.parent = some op) (hpnp : path s newParent = some pnp) :
+    ∃ opo opo' : Obj, s.objs[op]? = some opo ∧ s'.objs[op]? = some opo' ∧ opo'.cls = opo.cls ∧
+      canContainImports opo.cls = true ∧
+      dget opo'.aliases o.name = some (pnp ++ [newName]) ∧
+      ((newParent ≠ op ∨ newName ≠ o.name) → dget opo'.contents o.name = none) := by
+  obtain ⟨hI', o1, op1, opo, oc, A, pnp', F⟩ := reparent_spec hI h
+  have eo : o1 = o := by have := F.ho; rw [ho] at this; injection this with this; exact this.symm
+  subst eo
+  have eop : op1 = op := by have := F.hop; rw [hop] at this; injection this with this; exact this.symm
+  subst eop
+  have eP : pnp' = pnp := by
+    have := hI.reg.keys _ _ F.hpnp; rw [hpnp] at this; injection this with this; exact this.symm
+  subst eP
+  -- the old parent in `moveObjs`
+  obtain ⟨Fm, hF1, hF2⟩ := modify3_get s.objs obj op1 newParent newName oc o1.name (pnp' ++ [newName]) op1
+  rw [F.hopo] at hF1
+  obtain ⟨_, _, hFc, hFcls, hFa⟩ := hF2 opo
+  rw [if_pos rfl] at hFa
+  have hcu := hI.tree.cuniq op1 opo F.hopo
+  obtain ⟨_, hocm⟩ := ddel_spec hcu F.hdd
+  have hocnone : dget oc o1.name = none := dget_none_iff.2 (fun v hv => ((hocm _ _).1 hv).1 rfl)
+  have halias : dget (Fm opo).aliases o1.name = some (pnp' ++ [newName]) := by
+    rw [hFa]; exact dset_get_same _ _ _
+  have hcont : (newParent ≠ op1 ∨ newName ≠ o1.name) → dget (Fm opo).contents o1.name = none := by
+    intro hne
+    rw [hFc]
+    simp only [if_true]
+    by_cases hnp : op1 = newParent
+    · rw [if_pos hnp]
+      have : o1.name ≠ newName := by
+        rcases hne with a | a
+        · exact absurd hnp.symm a
+        · exact fun e => a e.symm
+      rw [dset_get_other _ _ _ _ this]; exact hocnone
+    · rw [if_neg hnp]; exact hocnone
+  rcases F.branch with ⟨_, b2, _, _⟩ | ⟨prev, nm', _, _, _, b⟩
+  · exact ⟨opo, Fm opo, F.hopo, by rw [b2, hF1]; rfl, hFcls, F.hcc, halias, hcont⟩
+  · by_cases hp : op1 = prev
+    · refine ⟨opo, { Fm opo with name := nm' }, F.hopo, ?_, hFcls, F.hcc, halias, hcont⟩
+      rw [b, ← hp, getElem?_modify_eq, hF1]; rfl
+    · exact ⟨opo, Fm opo, F.hopo, by rw [b, getElem?_modify_ne _ hp, hF1]; rfl, hFcls, F.hcc, halias, hcont⟩
+
+end Registry
+
+namespace Names
+open Registry
+
+/-- `old_member_name_finds`, with the class hypothesis as a quantified statement (C07, "references by the old qualified name still lead to it"):
+after `obj` (old name `A`) was moved onto a free name, `System.find_object(A ++ rest)` returns the
+object `x` that used to be called `A ++ rest` — the moved object itself for `rest = []`, a member
+below it otherwise — for every class-linearisation table.  Hypotheses the code needs: every object
+whose name is a proper prefix of the queried name is a module, package or class (so that
+`_localNameToFullName` looks into its `contents`), and no component is a superseded `name i`. -/
+theorem old_member_name_finds_of_forall {s s' : State} {obj newParent : Nat} {newName : Name}
+    (m : List (Nat × List Nat)) (hI : Inv s) (h : reparent s obj newParent newName = .ok s')
+    {A pnp : Path} (hA : path s obj = some A) (hpnp : path s newParent = some pnp)
+    (hfree : dget s.all (pnp ++ [newName]) = none)
+    (x : Nat) (rest : List Name) (hx : path s x = some (A ++ rest))
+    (hcont : ∀ (w : Nat) (wo : Obj) (t u : Path), s.objs[w]? = some wo → path s w = some t →
+      A ++ rest = t ++ u → u ≠ [] → canContainImports wo.cls = true)
+    (hnames : ∀ n ∈ A ++ rest, isSupersededName n = false) :
+    findObject ⟨s', m⟩ (A ++ rest) = .obj x := by
+  obtain ⟨hI', o, op, opo, oc, F, hobjs, hkeep, hsplit⟩ := reparent_free hI h hA hpnp hfree
+  have hfreeB : ∀ z, (pnp ++ [newName], z) ∉ s.all := dget_none_iff.1 hfree
+  have hxm : (A ++ rest, x) ∈ s.all := mem_of_path hI hx
+  have hxb : Below s.objs obj x := below_of_prefix hI F.hA hxm
+  -- x after the move
+  have hx' : path s' x = some (pnp ++ [newName] ++ rest) := by
+    obtain ⟨rx, erx, hx'⟩ := F.moved x _ hxm hxb
+    rw [← List.append_cancel_left erx] at hx'; exact hx'
+  -- the old parent
+  obtain ⟨pop, hpopP, hAeq⟩ := (hI.reg.hasPath F.hA).child_inv F.ho F.hop
+  have hopm : (pop, op) ∈ s.all := by
+    obtain ⟨k, hk⟩ := hI.full op hpopP.lt
+    exact (hI.reg.hasPath hk).func hpopP ▸ hk
+  have hopnb : ¬Below s.objs obj op := not_below_parent (hI.reg.hasPath F.hA) F.ho F.hop
+  have hopm' : (pop, op) ∈ s'.all := hkeep _ _ hopm hopnb
+  obtain ⟨opo0, opo', hopo0, hopo', hcls', hcc, halias, hcontents⟩ :=
+    reparent_leaves_alias hI h F.ho F.hop hpnp
+  have hmoved_ne : newParent ≠ op ∨ newName ≠ o.name := by
+    by_cases h1 : newParent = op
+    · right
+      intro h2
+      have : pnp = pop := by
+        have a := hI.reg.keys _ _ F.hpnp
+        have b := hI.reg.keys _ _ hopm
+        rw [h1, b] at a; injection a with a; exact a.symm
+      exact hfreeB obj (by rw [this, h2, ← hAeq]; exact F.hA)
+    · exact Or.inl h1
+  have hcnone := hcontents hmoved_ne
+  -- class of any object is unchanged
+  have hclsw : ∀ (w : Nat) (wo' : Obj), s'.objs[w]? = some wo' → ∃ wo, s.objs[w]? = some wo ∧ wo'.cls = wo.cls := by
+    intro w wo' hw
+    rw [hobjs] at hw
+    obtain ⟨wo, a, b, _⟩ := moveObjs_get hw
+    exact ⟨wo, a, b⟩
+  -- shape of the name
+  obtain ⟨r, mid, hpop⟩ : ∃ r mid, pop = r :: mid := by
+    cases hp : pop with
+    | nil => exact absurd hp hpopP.ne_nil
+    | cons r mid => exact ⟨r, mid, rfl⟩
+  subst hpop
+  have hfull : A ++ rest = r :: (mid ++ (o.name :: rest)) := by rw [hAeq]; simp
+  have hnone : objFor ⟨s', m⟩ (r :: (mid ++ (o.name :: rest))) = none := by
+    rw [← hfull]
+    exact dget_none_iff.2 (fun v hv => no_key_under_old_name hI h hA hpnp hfree _ v rest hv rfl)
+  obtain ⟨ro, hfind, hro⟩ := find_root hI' hopm'
+  -- the alias step at the old parent
+  have hBobj : (pnp ++ [newName], obj) ∈ s'.all := mem_of_path hI' F.newPath
+  have hstepAlias : ∀ fst, expandLoop ⟨s', m⟩ op fst (o.name :: rest) =
+      afterStep ⟨s', m⟩ (pnp ++ [newName]) obj rest := by
+    intro fst
+    have hl : localName ⟨s', m⟩ (fuelOf ⟨s', m⟩) op o.name = some (pnp ++ [newName]) :=
+      localName_alias (e := ⟨s', m⟩) _ hopo' (hcls' ▸ hcc) hcnone halias
+    have hne : pnp ++ [newName] ≠ [o.name] := by
+      intro e
+      have h1 := congrArg List.length e
+      have h2 := (hI.reg.hasPath F.hpnp).length_pos
+      simp only [List.length_append, List.length_cons, List.length_nil] at h1; omega
+    exact expandLoop_step hl hne (dget_of_mem hI'.reg.uniq hBobj)
+  -- from the root down to the old parent
+  have hstage1 : ∃ fst, expandLoop ⟨s', m⟩ ro true (mid ++ (o.name :: rest)) =
+      expandLoop ⟨s', m⟩ op fst (o.name :: rest) := by
+    cases hmid : mid with
+    | nil =>
+      subst hmid
+      have : ro = op := uniq_val hI'.reg.uniq hro hopm'
+      subst this
+      exact ⟨true, rfl⟩
+    | cons n1 mid' =>
+      refine ⟨false, ?_⟩
+      rw [← hmid]
+      have := expandLoop_descend ⟨s', m⟩ hI' mid ro op [r] true (o.name :: rest) (by rw [hmid]; simp)
+        hro (by simpa using hopm') ?_ ?_
+      · simpa using this
+      · intro w wo' t u hw hwk hmidtu hu
+        obtain ⟨wo, hwo, hc⟩ := hclsw w wo' hw
+        rw [hc]
+        rcases hsplit _ w hwk with ⟨a, _⟩ | hb
+        · refine hcont w wo ([r] ++ t) (u ++ (o.name :: rest)) hwo (hI.reg.keys _ _ a) ?_ (by simp [hu])
+          rw [hfull, hmidtu]; simp
+        · exfalso
+          obtain ⟨kw, hkw⟩ := hI.full w (List.getElem?_eq_some_iff.1 hwo).1
+          obtain ⟨rw_, _, hw'⟩ := F.moved w kw hkw hb
+          have e1 := hI'.reg.keys _ _ hwk
+          rw [hw'] at e1; injection e1 with e1
+          -- A = B ++ rw ++ u ++ [o.name]
+          have hAB : A = (pnp ++ [newName]) ++ (rw_ ++ u ++ [o.name]) := by
+            rw [hAeq, hmidtu]
+            have : r :: (t ++ u) = ([r] ++ t) ++ u := by simp
+            rw [this, ← e1]; simp
+          obtain ⟨z, hz, _⟩ := prefix_registered hI (hAB ▸ F.hA) (by simp)
+          exact hfreeB z hz
+      · intro n hn
+        exact hnames n (by rw [hfull]; simp [hn])
+  -- below the moved object
+  have hstage2 : afterStep ⟨s', m⟩ (pnp ++ [newName]) obj rest = some (pnp ++ [newName] ++ rest) := by
+    cases hrest : rest with
+    | nil => simp
+    | cons n1 rest' =>
+      rw [afterStep_cons, ← hrest]
+      have := expandLoop_descend ⟨s', m⟩ hI' rest obj x (pnp ++ [newName]) false [] (by rw [hrest]; simp)
+        hBobj (mem_of_path hI' hx') ?_ ?_
+      · simpa using this
+      · intro w wo' t u hw hwk hresttu hu
+        obtain ⟨wo, hwo, hc⟩ := hclsw w wo' hw
+        rw [hc]
+        rcases hsplit _ w hwk with ⟨a, _⟩ | hb
+        · exfalso
+          obtain ⟨z, hz, _⟩ := prefix_registered hI a (by simp)
+          exact hfreeB z hz
+        · obtain ⟨kw, hkw⟩ := hI.full w (List.getElem?_eq_some_iff.1 hwo).1
+          obtain ⟨rw_, ekw, hw'⟩ := F.moved w kw hkw hb
+          have e1 := hI'.reg.keys _ _ hwk
+          rw [hw'] at e1; injection e1 with e1
+          have : rw_ = t := List.append_cancel_left e1
+          subst this
+          refine hcont w wo (A ++ rw_) u hwo (ekw ▸ hI.reg.keys _ _ hkw) ?_ hu
+          rw [hresttu]; simp
+      · intro n hn
+        exact hnames n (List.mem_append_right _ hn)
+  -- assemble
+  obtain ⟨fst, hs1⟩ := hstage1
+  have hexp : expandName ⟨s', m⟩ ro (mid ++ (o.name :: rest)) = some (pnp ++ [newName] ++ rest) := by
+    unfold expandName
+    rw [hs1, hstepAlias, hstage2]
+  rw [hfull]
+  unfold findObject
+  simp only [hnone]
+  have hne : ¬ (mid ++ o.name :: rest = []) := by simp
+  have hobjx : objFor ⟨s', m⟩ (pnp ++ [newName] ++ rest) = some x := dget_of_path hI' hx'
+  split
+  · rename_i heq
+    exact absurd (hfind.symm.trans heq) (by simp)
+  · rename_i ro' heq
+    have : ro' = ro := Option.some.inj (heq.symm.trans hfind)
+    subst this
+    simp only [hne, if_false, hexp, hobjx]
+
+/-- `old_name_finds`, with the class hypothesis as a quantified statement -/
+theorem old_name_finds_of_forall {s s' : State} {obj newParent : Nat} {newName : Name}
+    (m : List (Nat × List Nat)) (hI : Inv s) (h : reparent s obj newParent newName = .ok s')
+    {A pnp : Path} (hA : path s obj = some A) (hpnp : path s newParent = some pnp)
+    (hfree : dget s.all (pnp ++ [newName]) = none)
+    (hcont : ∀ (w : Nat) (wo : Obj) (t u : Path), s.objs[w]? = some wo → path s w = some t →
+      A = t ++ u → u ≠ [] → canContainImports wo.cls = true)
+    (hnames : ∀ n ∈ A, isSupersededName n = false) :
+    findObject ⟨s', m⟩ A = .obj obj := by
+  have := old_member_name_finds_of_forall m hI h hA hpnp hfree obj [] (by simpa using hA)
+    (by simpa using hcont) (by simpa using hnames)
+  simpa using this
+
+
+/-- decidable form of "every object whose qualified name is a proper prefix of `q` is a module,
+package or class" -/
+def prefixesAreContainers (s : State) (q : Path) : Bool :=
+  (List.range s.objs.length).all fun w =>
+    match s.objs[w]?, path s w with
+    | some wo, some t => !(t.isPrefixOf q && t != q) || canContainImports wo.cls
+    | _, _ => true
+
+theorem prefixesAreContainers_spec {s : State} {q : Path} (h : prefixesAreContainers s q = true) :
+    ∀ (w : Nat) (wo : Obj) (t u : Path), s.objs[w]? = some wo → path s w = some t →
+      q = t ++ u → u ≠ [] → canContainImports wo.cls = true := by
+  intro w wo t u hw hp hq hu
+  simp only [prefixesAreContainers, List.all_eq_true, List.mem_range] at h
+  have := h w (List.getElem?_eq_some_iff.1 hw).1
+  simp only [hw, hp] at this
+  subst hq
+  have h1 : t.isPrefixOf (t ++ u) = true := by
+    rw [List.isPrefixOf_iff_prefix]; exact List.prefix_append t u
+  have h2 : (t != t ++ u) = true := by
+    simp only [bne_iff_ne, ne_eq]
+    intro e
+    have := congrArg List.length e
+    simp only [List.length_append] at this
+    exact hu (List.eq_nil_of_length_eq_zero (by omega))
+  simpa [h1, h2] using this
+
+/-- **old_member_name_finds** (C07, "references by the old qualified name still lead to it"):
+after `obj` (old name `A`) was moved onto a free name, `System.find_object(A ++ rest)` returns the
+object `x` that used to be called `A ++ rest` (a member below the moved object), for every
+class-linearisation table `m`. -/
+theorem old_member_name_finds {s s' : State} {obj newParent : Nat} {newName : Name}
+    (m : List (Nat × List Nat)) (hI : Inv s) (h : reparent s obj newParent newName = .ok s')
+    {A pnp : Path} (hA : path s obj = some A) (hpnp : path s newParent = some pnp)
+    (hfree : dget s.all (pnp ++ [newName]) = none)
+    (x : Nat) (rest : List Name) (hx : path s x = some (A ++ rest))
+    (hcont : prefixesAreContainers s (A ++ rest) = true)
+    (hnames : ∀ n ∈ A ++ rest, isSupersededName n = false) :
+    findObject ⟨s', m⟩ (A ++ rest) = .obj x :=
+  old_member_name_finds_of_forall m hI h hA hpnp hfree x rest hx (prefixesAreContainers_spec hcont) hnames
+
+/-- **old_name_finds**: after the move, `System.find_object(old qualified name)` returns the moved
+object: the walk goes from the root module along `contents` to the old parent, where the alias
+left by `reparent` redirects it to the new name. -/
+theorem old_name_finds {s s' : State} {obj newParent : Nat} {newName : Name}
+    (m : List (Nat × List Nat)) (hI : Inv s) (h : reparent s obj newParent newName = .ok s')
+    {A pnp : Path} (hA : path s obj = some A) (hpnp : path s newParent = some pnp)
+    (hfree : dget s.all (pnp ++ [newName]) = none)
+    (hcont : prefixesAreContainers s A = true)
+    (hnames : ∀ n ∈ A, isSupersededName n = false) :
+    findObject ⟨s', m⟩ A = .obj obj :=
+  old_name_finds_of_forall m hI h hA hpnp hfree (prefixesAreContainers_spec hcont) hnames
+
+/-- **new_name_resolves**: the new qualified name is registered for the moved object (free or taken
+destination alike), and a module that imported it *from the re-exporting module* (alias table maps
+a local name to the new qualified name) resolves that local name to it. -/
+theorem new_name_resolves {s s' : State} {obj newParent : Nat} {newName : Name}
+    (m : List (Nat × List Nat)) (hI : Inv s) (h : reparent s obj newParent newName = .ok s')
+    {pnp : Path} (hpnp : path s newParent = some pnp) :
+    objFor ⟨s', m⟩ (pnp ++ [newName]) = some obj ∧
+    ∀ (scope : Nat) (so : Obj) (y : Name), getObj s' scope = some so →
+      (so.cls = .module ∨ so.cls = .package) → dget so.contents y = none →
+      dget so.aliases y = some (pnp ++ [newName]) → resolveName ⟨s', m⟩ scope [y] = some obj := by
+  obtain ⟨hI', o, op, opo, oc, A, pnp', F⟩ := reparent_spec hI h
+  have eP : pnp' = pnp := by
+    have := hI.reg.keys _ _ F.hpnp; rw [hpnp] at this; injection this with this; exact this.symm
+  subst eP
+  have hobj : objFor ⟨s', m⟩ (pnp' ++ [newName]) = some obj := dget_of_path hI' F.newPath
+  refine ⟨hobj, ?_⟩
+  intro scope so y hs hm hc ha
+  have hcc : canContainImports so.cls = true := by
+    rcases hm with e | e <;> simp [canContainImports, e]
+  have hl : localName ⟨s', m⟩ (fuelOf ⟨s', m⟩) scope y = some (pnp' ++ [newName]) :=
+    localName_alias (e := ⟨s', m⟩) _ hs hcc hc ha
+  unfold resolveName
+  rw [expand_single_local, hl]
+  exact hobj
+
+/-!
+### The last clause of C07 is FALSE at full strength
+
+Full statement (kept visible, not provable):
+
+    theorem reference_reaches (m) (hI : Inv s) (h : reparent s obj newParent newName = .ok s')
+        (scope : Nat) (name : Path)
+        -- `name`, looked up from `scope`, named the object before the move …
+        (hbefore : resolveName ⟨s, m⟩ scope name = some obj) :
+        -- … and still does afterwards
+        resolveName ⟨s', m⟩ scope name = some obj
+
+It fails for a consumer module that imported the object *from its defining module*: the consumer's
+alias table maps the local name to the OLD qualified name; after the move `objForFullName(old)` is
+`None`, and `expandName` stops there (`break`), returning the old dotted name without consulting
+the alias that `reparent` left in the old parent.  `System.find_object(old name)` does follow that
+alias (`old_name_finds`), `Documentable.resolveName` does not.
+-/
+
+/-! ### a concrete re-export: package `pkg`, module `pkg._b` with class `X` with method `m`,
+consumer module `pkg.c`; `X` is moved into `pkg` -/
+
+def exHist : List Op :=
+  [.add .package ['p','k','g'] none, .add .module ['_','b'] (some 0), .add .cls ['X'] (some 1),
+   .add .function ['m'] (some 2), .add .module ['c'] (some 0)]
+
+def exS : State := (run init exHist).1
+
+def exS' : State :=
+  match reparent exS 2 0 ['X'] with
+  | .ok t => t
+  | .error _ => exS
+
+theorem exS_inv : Registry.Inv exS := inv_run exHist
+
+theorem exS_reparent : reparent exS 2 0 ['X'] = .ok exS' := by
+  have hok : (match reparent exS 2 0 ['X'] with | .ok _ => true | .error _ => false) = true := by decide
+  unfold exS'
+  cases h : reparent exS 2 0 ['X'] with
+  | ok t => rfl
+  | error e => rw [h] at hok; cases hok
+
+def exOld : Path := [['p','k','g'], ['_','b'], ['X']]
+
+/-- non-vacuity of `old_name_finds`: all hypotheses hold in the example, and the conclusion is the
+expected object -/
+example (m : List (Nat × List Nat)) : findObject ⟨exS', m⟩ exOld = .obj 2 :=
+  old_name_finds m exS_inv exS_reparent (A := exOld) (pnp := [['p','k','g']])
+    (by decide) (by decide) (by decide) (by decide) (by decide)
+
+/-- non-vacuity of `old_member_name_finds`: `pkg._b.X.m` leads to the method now called `pkg.X.m` -/
+example (m : List (Nat × List Nat)) : findObject ⟨exS', m⟩ (exOld ++ [['m']]) = .obj 3 :=
+  old_member_name_finds m exS_inv exS_reparent (A := exOld) (pnp := [['p','k','g']])
+    (by decide) (by decide) (by decide) 3 [['m']] (by decide) (by decide) (by decide)
+
+example : path exS' 3 = some [['p','k','g'], ['X'], ['m']] ∧
+    dget exS'.all exOld = none ∧ dget exS'.all (exOld ++ [['m']]) = none := by decide
+
+/-- non-vacuity of `reparent_once` / `reparent_leaves_alias` / `new_name_resolves` -/
+example : path exS' 0 = some [['p','k','g']] ∧ ∀ k v t, (k, v) ∈ exS'.all → k ≠ exOld ++ t :=
+  let h := Registry.reparent_once exS_inv exS_reparent (A := exOld) (pnp := [['p','k','g']])
+    (by decide) (by decide) (by decide)
+  ⟨h.2.1, h.2.2.2.1⟩
+
+example : (match exS'.objs[1]? with
+    | some b => dget b.aliases ['X'] == some [['p','k','g'], ['X']] && dget b.contents ['X'] == none
+    | none => false) = true := by decide
+
+example (m : List (Nat × List Nat)) : objFor ⟨exS', m⟩ [['p','k','g'], ['X']] = some 2 :=
+  (new_name_resolves m exS_inv exS_reparent (pnp := [['p','k','g']]) (by decide)).1
+
+/-- the consumer `pkg.c` did `from pkg._b import X` -/
+def exC : State :=
+  modifyObj exS' 4 (fun o => { o with aliases := [(['X'], exOld)] })
+
+/-- **consumer_of_definer_counterexample**: in the example, after the move, the consumer's local
+name `X` (imported from the defining module) expands to the old dotted name and resolves to
+nothing, although `find_object` of that same old name returns the moved class. -/
+theorem consumer_of_definer_counterexample :
+    expandName ⟨exC, []⟩ 4 [['X']] = some exOld ∧
+    resolveName ⟨exC, []⟩ 4 [['X']] = none ∧
+    findObject ⟨exC, []⟩ exOld = .obj 2 ∧
+    -- before the move the same reference did resolve
+    resolveName ⟨modifyObj exS 4 (fun o => { o with aliases := [(['X'], exOld)] }), []⟩ 4 [['X']] = some 2 := by
+  decide
 
 end Names
